@@ -34,8 +34,7 @@ def _still(cause):
 REFUTED = []
 
 
-def oracle_at(unit, case, impl):
-    return None
+oracle_at = propgen.point_oracle(ID)      # the property's point checks at and around the mismatching input (harness/oracles/at_point.py)
 
 
 def diagnose(b):
